@@ -5,6 +5,7 @@
 package runtime
 
 import (
+	"bytes"
 	"context"
 	"errors"
 	"io"
@@ -585,7 +586,25 @@ func (vm *VM) nextCall() bool {
 					break
 				}
 			}
-			if regs := call.cl.fn.FinalRegs; regs != nil {
+			if fn := call.cl.fn; fn.Macro {
+				// Complete the call of the macro as the Return instruction
+				// does for a macro that has no deferred calls.
+				if i > 0 && vm.calls[i-1].status == started && vm.calls[i-1].renderer != call.renderer {
+					prev := vm.calls[i-1]
+					b := prev.cl.fn.Body[prev.pc-2].B
+					if b == ReturnString {
+						out := call.renderer.Out().(*strings.Builder)
+						vm.fp = call.fp
+						vm.setString(1, out.String())
+					} else if fn.Format == ast.FormatMarkdown && ast.Format(b) == ast.FormatHTML {
+						out := call.renderer.Out().(*bytes.Buffer)
+						err := vm.env.conv(out.Bytes(), prev.renderer.out)
+						if err != nil {
+							panic(outError{err})
+						}
+					}
+				}
+			} else if regs := fn.FinalRegs; regs != nil {
 				vm.fp = call.fp
 				vm.finalize(regs)
 			}
